@@ -1260,6 +1260,17 @@ func (s *levelsController) fillTablesL0ToLbase(cd *compactDef) bool {
 				break
 			}
 		}
+		// A table behind this chain that overlaps the picked range is normally newer than the
+		// tables picked. But L0 is not always in age order: Open sorts it by file ID, and the
+		// output of an L0 -> L0 compaction gets a new ID although it holds the oldest data. Moving
+		// newer versions (or a delete marker) below a table that holds older ones would bring
+		// deleted or overwritten data back, so never leave an overlapping table behind.
+		for _, t := range top[len(out):] {
+			if kr.overlapsWith(getKeyRange(t)) {
+				out = top
+				break
+			}
+		}
 	}
 	cd.thisRange = getKeyRange(out...)
 	cd.top = out
